@@ -194,12 +194,12 @@ pub fn run(ctx: &Ctx, rep: &mut Report) {
             (0..14).map(|k| (8u16, vec![b'a' + k as u8])).collect(),
         ];
         let clients: Vec<Option<u8>> = std::iter::once(None).chain((0..=7).map(Some)).collect();
-        let radices = [if ctx.thorough() { NBUDGETS_ALL } else { NBUDGETS }, 3, optsets.len() as u64, clients.len() as u64, 7];
+        let radices = [if ctx.thorough() { NBUDGETS_ALL } else { NBUDGETS }, 3, optsets.len() as u64, clients.len() as u64, 11];
         let n = product(&radices);
         ctx.family(
             rep,
             "downloads",
-            "budget (every value overhead+28..+92, +-2 around overhead+12+2^k for k=4..10, 1152, 1280; thorough: every value up to 1280) x token length {0,4,8} x application options {none, 60-byte Location-Path, ETag+Max-Age+Content-Format, 14 one-byte Location-Path segments} x client SZX {none, 0..7} x body {half a block, block-1, block, block+1, 2 blocks+1, 5 blocks+3, 20 blocks+1 relative to the room left by the budget}: every reply measured against the budget, size choice checked",
+            "budget (every value overhead+28..+92, +-2 around overhead+12+2^k for k=4..10, 1152, 1280; thorough: every value up to 1280) x token length {0,4,8} x application options {none, 60-byte Location-Path, ETag+Max-Age+Content-Format, 14 one-byte Location-Path segments} x client SZX {none, 0..7} x body {half a block, block-1, block, block+1, 2 blocks+1, 5 blocks+3, 20 blocks+1 relative to the room left by the budget, and budget-overhead-2..+1 (the largest body that fits unfragmented)}: every reply measured against the budget, size choice checked",
             n,
             true,
             |i, rep| {
@@ -223,7 +223,12 @@ pub fn run(ctx: &Ctx, rep: &mut Report) {
                     4 => 2 * room + 1,
                     5 => 5 * room + 3,
                     // more than 16 (and, with 16-byte blocks, more than 256) blocks: the Block2 value grows to 2 bytes
-                    _ => (20 * room + 1).min(6000),
+                    6 => (20 * room + 1).min(6000),
+                    // around the largest body that still fits one unfragmented message: overhead + marker + body = budget
+                    7 => budget - ovh - 2,
+                    8 => budget - ovh - 1,
+                    9 => budget - ovh,
+                    _ => budget - ovh + 1,
                 };
                 let client = clients[d[3] as usize];
                 let case = || Json::obj().set("direction", "download").set("budget", budget).set("reply_overhead", ovh).set("token_len", token_len).set("option_set", d[2]).set("client_szx", client).set("body_len", body_len);
